@@ -214,6 +214,11 @@ func traceT1Nums(args []string) error {
 		g.ClosePath()
 		g.HStem = []funit.Int16{10, 30, 680, 700}
 		g.VStem = []funit.Int16{funit.Int16(int(left) % 30000), funit.Int16(int(left)%30000 + 80)}
+		if i%2 == 1 {
+			// edge ("ghost") stems: the second value lies below the first one (widths -21 and -20)
+			g.HStem = []funit.Int16{700, 679, 0, 20}
+			g.VStem = append(g.VStem, 20, 0)
+		}
 		f.Glyphs[fmt.Sprintf("hinted%d", i)] = g
 	}
 	var buf bytes.Buffer
